@@ -723,7 +723,9 @@ func (p *Pollard) readOne(n *polNode, r io.Reader) (int64, error) {
 	readBytes, err := io.ReadFull(r, n.data[:])
 	if err != nil {
 		if err == io.EOF {
-			return int64(readBytes), nil
+			// Every node that was written is expected here: running
+			// out of bytes means the stream was cut short.
+			err = io.ErrUnexpectedEOF
 		}
 		return totalBytes, err
 	}
